@@ -43,9 +43,14 @@ SupportedWhy(ev, r, oi) ==
   IF r.ret # 0 THEN "rejected"
   ELSE IF r.off1 - r.off0 # Len(r.bytes) \/ r.lo # r.off0 \/ r.hi # r.off1 - 1 THEN "C01:offset-advance"
   ELSE IF r.ctx \notin {"solo0", "solo37"} THEN CtxWhy(ev, r, oi)
-  ELSE IF r.mode = "fit" /\ Len(r.bytes) > 0 /\ r.ctx = "solo37" THEN ""   \* padded output: judged by C13
-  ELSE LET d == DecodeOne(r.bytes) IN
-       IF ~d.ok THEN (IF Decode(r.bytes).ok THEN "leftover-bytes" ELSE "undecodable")
+  ELSE IF r.mode = "fit" /\ (ev.ast.mn \in NopK \/ ev.ast.mn = "nop") THEN ""   \* padding and instruction are both NOPs: judged by C13
+  ELSE LET \* chunk fitting may put NOP padding in front (its layout is C13's business) and assembles the instruction a second time: judge that code
+           ds   == IF r.mode = "fit" /\ Len(r.bytes) > 0 THEN DecodeAll(r.bytes) ELSE <<>>
+           pad  == Len(ds) >= 2 /\ (\A k \in 1..Len(ds) : ds[k].ok) /\ (\A k \in 1..(Len(ds) - 1) : IsNop(ds[k]))
+           body == IF pad THEN SubSeq(r.bytes, Len(r.bytes) - ds[Len(ds)].len + 1, Len(r.bytes)) ELSE r.bytes
+           d    == DecodeOne(body)
+       IN
+       IF ~d.ok THEN (IF Decode(body).ok THEN "leftover-bytes" ELSE "undecodable")
        ELSE IF ev.ast.mn \in NopK /\ Len(r.bytes) # (CHOOSE k \in 2..11 : ev.ast.mn = "nop" \o ToString(k)) THEN "nop-length"
        ELSE LET w == MatchWhy(ev.ast, OptRec(oi), d) IN
             IF w # "" THEN w
